@@ -136,6 +136,7 @@ def replay_history(cfg, hist, check_last_only=True):
     storage, tmp = make_storage(skind)
     model = Model(kind, persistent=(skind != 'null'))
     viols = []
+    extra_keys = 0
     try:
         for step, op in enumerate(hist):
             epoch = step + 1
@@ -174,8 +175,15 @@ def replay_history(cfg, hist, check_last_only=True):
                 viols.append(('is_cached-mismatch', f'{d}: is_cached {cached} model {wantc}'))
             keys = listing(skind, storage)
             wkeys = sorted(tasks[i].cache_key for i in model.d)
-            if keys != wkeys:
+            # The model's entries must be there.  Extra keys are only a violation of the statement
+            # when they are observable through the Lab (is_cached / cached_tasks / read-back, checked
+            # separately) or belong to something that must never persist (cache=None type, storage=None).
+            missing = [k for k in wkeys if k not in keys]
+            if missing:
                 viols.append(('listing-mismatch', f'{d}: storage lists {keys}, model has {wkeys}'))
+            if 'null' in keys:
+                viols.append(('nullcache-persisted', f'{d}: an entry was written for a cache=None task: {keys}'))
+            extra_keys += len([k for k in keys if k not in wkeys])
             for tl in ([U.TYPES[kind]], [U.TN], [U.TN, U.TYPES[kind]], [U.TYPES[kind], U.TA, U.TJ]):
                 try:
                     ct = lab.cached_tasks(tl)
